@@ -295,7 +295,7 @@ def plan(pid: str, tier: str, seed: int) -> dict:
                + [(n, {"AnyOrder": "FALSE", "MaxWithhold": 2, "MaxCrashes": 1}, {}) for n in ("chain2", "diamond")],
         )
     if pid == "C10":
-        progs = core + [PR.by_name(n) for n in ("before2", "after1", "lazychain")] + PR.halt_family() + ([] if quick else extra + PR.lazy_family()[2:])
+        progs = core + [PR.by_name(n) for n in ("before2", "beforechain", "after1", "lazychain")] + PR.halt_family() + ([] if quick else extra + PR.lazy_family()[2:])
         return dict(
             progs=progs, props=["C10_SweepHarmless", "C10_NoExtraExec", "C02_StartOnce", "C01_SameOutcome"],
             jobs=lambda refs: [{"kind": "inject", "prog": p, "what": "sweep", "at": at, "times": t}
